@@ -62,7 +62,10 @@ pub fn check_prog(p: &Prog, rep: &mut Report) {
     let naga_map = naga_stage_map(&module, &info);
     for (name, _, _, exp) in &p.expect {
         let n = naga_map.get(name).copied().unwrap_or(ShaderStages::NONE);
-        if n != *exp {
+        // naga's GlobalUse is empty for a variable that is only named (`_ = res;`, `let p = &res;`), although the function
+        // statically accesses it in WGSL's sense; for programs with such forms naga's answer may only be a subset
+        let names_only = p.src.contains("_ = ") || p.src.contains("let up");
+        if (names_only && !exp.contains(n)) || (!names_only && n != *exp) {
             machinery(&format!(
                 "C03 oracle self-disagreement on `{name}` in {}: by construction {} vs naga {}\n{}",
                 p.key,
